@@ -22,7 +22,19 @@ def fhex(v):
         return repr(v)
 
 
-def gen_cfg(rnd):
+def gen_cfg(rnd, i=0):
+    cfg = _gen_cfg(rnd)
+    # stratify the fields that gate rarely taken paths (large storages need long streams to fill)
+    cfg["size"] = [1, 3, 10, 100][i % 4]
+    if cfg["size"] == 100:
+        cfg["steps"] = 130
+        cfg["storage"] = ["uniform", "geometric", "batch", "interval"][(i // 4) % 4]
+        cfg["imputer"] = ["joint", "product", "default-arg"][(i // 4) % 3]
+        cfg["explainer"] = ["sage", "pfi", "interval", "sage"][(i // 4) % 4]
+    return cfg
+
+
+def _gen_cfg(rnd):
     return {
         "explainer": rnd.choice(["sage", "pfi", "sage", "pfi", "batch", "interval"]),
         "storage": rnd.choice(["uniform", "geometric", "interval", "batch", "tree", "tree"]),
@@ -197,7 +209,7 @@ def main(run):
     jrnd = random.Random(run.shard_seed + 1)
     cfgs = []
     for i in range(N_CFG[run.tier]):
-        cfg = gen_cfg(rnd)
+        cfg = gen_cfg(rnd, i)
         seed = rnd.randrange(2 ** 31)
         cfgs.append((cfg, seed))
         try:
